@@ -320,6 +320,11 @@ def run_batch(run, frames, label, wit_extra=None, followups=(), big_device=False
     if heap_transaction_timers():
         run.violation("transaction-timer-left-on-device", dict(wit))
         ok = False
+    far = [(round(when - CLOCK.now, 1), type(t).__name__) for when, n_, t in CLOCK.tm.tasks if when - CLOCK.now > 600.0]
+    if far and label != "timed-disable":
+        # a device that has dealt with everything it was sent is idle: nothing is armed for hours ahead
+        run.violation("timer-left-far-ahead-on-an-idle-device", dict(wit, timers=far[:3]))
+        ok = False
     if nothing_executed and (dev.av.presentValue != 72.5 or dev.bv.presentValue != "inactive"):
         # the batch held nothing that is a complete request: nothing may have been carried out
         run.violation("incomplete-request-executed", dict(wit, analog_value=dev.av.presentValue, binary_value=str(dev.bv.presentValue)))
@@ -426,6 +431,9 @@ def main():
             nets = rng.choice([(6, 5), (5, 6, 5), (5,), (5, 5), (1, 2, 3), (7, 5), (7, 5, 5), (7, 6, 5)])
             garbage = [(rng.choice([INJ, INJ2]), W.npci_build({"net_message": 0x13, "payload": bytes([n >> 8, n & 0xFF, rng.choice([0, 1])])}), "broadcast")
                        for n in nets] + garbage
+            if rng.random() < 0.5:
+                # ... and somebody asks what the number is (a plain device lets a router answer first)
+                garbage.append((rng.choice([INJ, INJ2]), W.npci_build({"net_message": 0x12}), "broadcast"))
             run.count("batches_with_network_number_announcements")
         order = garbage + [(INJ, routed)] if rng.random() < 0.7 else [(INJ, routed)] + garbage + [(INJ, routed.replace(b"\xa0\x0c", b"\xa1\x0c", 1))]
         run.case(("routed", run.shard[0], i), sample={"routed_request_after_foreign_garbage": [o[1][:20] for o in order[:3]]}, sample_key=("routed", i < 1))
